@@ -96,6 +96,46 @@ func ruleC16InitializeGating(c *Ctx) {
 				hits = append(hits, exprString(cs2.Call.Fun)+" at "+c.pos(cs2.Call.Pos()))
 			}
 		}
+		// Part of the damage can be excluded structurally: when the drive is a regular file that already has content, a
+		// failed rebuild must end the call. Decided as: every destructive call behind the failure edge is also behind the
+		// false edge of a boolean that is set only on a path on which the drive is known to be a regular file.
+		if len(hits) > 0 {
+			isRegField := c.field("pkg/config", "DriveReaderConfig", "DriveIsRegular")
+			guards := map[types.Object]bool{}
+			walkOwn(f.Body(), func(nd ast.Node) {
+				as, ok := nd.(*ast.AssignStmt)
+				if !ok || len(as.Lhs) != 1 || len(as.Rhs) != 1 {
+					return
+				}
+				if tv := info.Types[as.Rhs[0]]; tv.Value == nil || tv.Value.String() != "true" {
+					return
+				}
+				o := objOfIdent(info, as.Lhs[0])
+				if o == nil {
+					return
+				}
+				onRegular, _ := fl.guardedBy(as, func(ft Fact) bool { return isRegField != nil && selField(info, ft.E) == isRegField && ft.Pos }, nil)
+				if onRegular {
+					guards[o] = true
+				}
+			})
+			allMitigated := len(guards) > 0
+			for _, cs2 := range f.calls {
+				if cs2 == cs || !sinkward(cs2) {
+					continue
+				}
+				st, reach := fl.before(an, cs2.Call)
+				if !reach || st&failed == 0 {
+					continue
+				}
+				ok2, _ := fl.guardedBy(cs2.Call, func(ft Fact) bool { return guards[objOfIdent(info, ft.E)] && !ft.Pos }, nil)
+				if !ok2 {
+					allMitigated = false
+				}
+			}
+			c.verdictIf(allMitigated, rule2, f, fmt.Sprintf("recovery.Index#%d regular drive with content", k), cs.Call.Pos(),
+				"on a regular drive file that already has content a failed rebuild ends Initialize with that error", "when the rebuild fails on a tar FILE that already has content (cut short, or written with other keys) Initialize still goes on to create a new root: it appends to the file and discards what had been indexed")
+		}
 		c.verdictIf(len(hits) == 0, rule2, f, fmt.Sprintf("recovery.Index#%d", k), cs.Call.Pos(),
 			"a failed rebuild is reported, nothing destructive follows", "when rebuilding the index from the tape fails (e.g. a tape cut inside content) the error is discarded and "+strings.Join(hits, ", ")+" runs with overwrite semantics: the index view is wiped down to a newly appended root")
 	}
